@@ -148,12 +148,22 @@ void LoopWDog::Start() {
 }
 
 void LoopWDog::Stop() {
-    std::lock_guard<std::mutex> lg(_mutex_lock);
-    if (_keep_running) {
-        _keep_running = false;
-        _sp_thread->join();
-        CHECK_DELETE_RESET_OBJ(_sp_thread);
-        _loop_info_vec.clear();
+    std::thread *thread = nullptr;
+    {
+        std::lock_guard<std::mutex> lg(_mutex_lock);
+        if (_keep_running) {
+            _keep_running = false;
+            thread = _sp_thread;
+            _sp_thread = nullptr;
+            _loop_info_vec.clear();
+        }
+    }
+
+    //! join without holding _mutex_lock: the watchdog thread takes it in SendLoopFunc() and
+    //! CheckLoopTag(), so joining under the lock deadlocks if the thread is just about to lock
+    if (thread != nullptr) {
+        thread->join();
+        delete thread;
     }
 }
 
